@@ -1,3 +1,4 @@
+import _pickle
 import pickle
 
 import fickling.hook as hook
@@ -9,17 +10,21 @@ class FicklingContextManager:
     def __init__(self, max_acceptable_severity=Severity.LIKELY_SAFE):
         self.original_pickle_load = pickle.load
         self.max_acceptable_severity = max_acceptable_severity
+        self._saved_bindings = []
 
     def __enter__(self):
         # Modify the `hook_pickle_load` function to use the imported loader
         wrapped_load = lambda file, *args, **kwargs: loader.load(  # noqa
             file, max_acceptable_severity=self.max_acceptable_severity
         )
+        # remember what is in force right now (not at construction time), for all four
+        # functions the hooks can rebind, so that __exit__ restores exactly that
+        self._saved_bindings.append((pickle.load, pickle.loads, _pickle.load, _pickle.loads))
         hook.run_hook()
         return self
 
     def __exit__(self, exc_type, exc_val, exc_tb):
-        pickle.load = self.original_pickle_load
+        pickle.load, pickle.loads, _pickle.load, _pickle.loads = self._saved_bindings.pop()
 
 
 def check_safety():
